@@ -260,8 +260,8 @@ theorem dropWhile_dropWhile {α} (p : α → Bool) (l : List α) :
   | nil => rfl
   | cons a t ih =>
     by_cases h : p a = true
-    · simp [List.dropWhile_cons, h, ih]
-    · simp [List.dropWhile_cons, h]
+    · simp [h, ih]
+    · simp [h]
 
 /-! ### `NewHostRule` = the token reference, for EVERY line -/
 
@@ -317,5 +317,169 @@ theorem newHostRule_eq_spec (ext : Ext) (dn : Bytes → Bool) (text : Bytes) (li
       | nil => exact absurd hn hnames
       | cons n ns =>
         cases ext.parseAddr (splitTok body) <;> simp
+
+end UF
+
+namespace UF
+open Bytes
+
+/-! ### Lines of the grammar -/
+
+theorem indexByte_go_append_hit (c : UInt8) (pre rest : Bytes) (k : Nat)
+    (h : pre.all (fun x => x != c) = true) :
+    indexByte.go c (pre ++ c :: rest) k = some (k + pre.length) := by
+  induction pre generalizing k with
+  | nil => simp [indexByte.go]
+  | cons a t ih =>
+    simp only [List.all_cons, Bool.and_eq_true, bne_iff_ne, ne_eq] at h
+    have ha : (a == c) = false := by simpa using h.1
+    simp only [List.cons_append, indexByte.go, ha, Bool.false_eq_true, if_false]
+    rw [ih (k + 1) h.2]
+    simp only [List.length_cons]
+    congr 1
+    omega
+
+theorem indexByte_go_none (c : UInt8) (s : Bytes) (k : Nat)
+    (h : s.all (fun x => x != c) = true) : indexByte.go c s k = none := by
+  induction s generalizing k with
+  | nil => simp [indexByte.go]
+  | cons a t ih =>
+    simp only [List.all_cons, Bool.and_eq_true, bne_iff_ne, ne_eq] at h
+    have ha : (a == c) = false := by simpa using h.1
+    simp only [indexByte.go, ha, Bool.false_eq_true, if_false]
+    exact ih (k + 1) h.2
+
+theorem hostLineBody_comment (pre c : Bytes) (hne : pre ≠ []) (hf : hashFree pre = true) :
+    hostLineBody (pre ++ ch '#' :: c) = pre := by
+  unfold hostLineBody indexByte
+  rw [indexByte_go_append_hit _ _ _ _ hf]
+  have : 0 < pre.length := List.length_pos_iff.mpr hne
+  simp [this]
+
+theorem hostLineBody_plain (pre : Bytes) (hf : hashFree pre = true) : hostLineBody pre = pre := by
+  unfold hostLineBody indexByte
+  rw [indexByte_go_none _ _ _ hf]
+
+/-- The body of a line `pre ++ comment?` with a non-empty '#'-free `pre`. -/
+theorem hostLineBody_tail (pre cmt : Bytes) (hne : pre ≠ []) (hf : hashFree pre = true)
+    (hc : isCommentTail cmt = true) : hostLineBody (pre ++ cmt) = pre := by
+  cases cmt with
+  | nil => simpa using hostLineBody_plain pre hf
+  | cons x c =>
+    have hx : x = ch '#' := by simpa [isCommentTail] using hc
+    subst hx
+    exact hostLineBody_comment pre c hne hf
+
+theorem blankTokens_go_append (tok rest cur : Bytes) (h : blankFree tok = true) :
+    blankTokens.go (tok ++ rest) cur = blankTokens.go rest (tok.reverse ++ cur) := by
+  induction tok generalizing cur with
+  | nil => rfl
+  | cons a t ih =>
+    simp only [blankFree, List.all_cons, Bool.and_eq_true, Bool.not_eq_eq_eq_not, Bool.not_true] at h
+    simp only [List.cons_append, blankTokens.go, h.1, Bool.false_eq_true, if_false]
+    rw [ih (a :: cur) (by simpa [blankFree] using h.2)]
+    simp
+
+/-- `rest` is empty or starts with a blank. -/
+def startsBlankOrNil (rest : Bytes) : Bool :=
+  match rest with
+  | [] => true
+  | c :: _ => isBlank c
+
+theorem blankTokens_tok_append (tok rest : Bytes) (hne : tok ≠ []) (h : blankFree tok = true)
+    (hr : startsBlankOrNil rest = true) : blankTokens (tok ++ rest) = tok :: blankTokens rest := by
+  unfold blankTokens
+  rw [blankTokens_go_append tok rest [] h]
+  have hrev : tok.reverse ++ [] ≠ [] := by simpa using hne
+  cases rest with
+  | nil =>
+    cases hh : tok.reverse ++ [] with
+    | nil => exact absurd hh hrev
+    | cons a r =>
+      have : (a :: r).reverse = tok := by rw [← hh]; simp
+      simp [blankTokens.go, this]
+  | cons c r =>
+    have hc : isBlank c = true := by simpa [startsBlankOrNil] using hr
+    cases hh : tok.reverse ++ [] with
+    | nil => exact absurd hh hrev
+    | cons a q =>
+      have : (a :: q).reverse = tok := by rw [← hh]; simp
+      simp [blankTokens.go, hc, this]
+
+theorem blankTokens_blank_append (w rest : Bytes) (h : allBlank w = true) :
+    blankTokens (w ++ rest) = blankTokens rest := by
+  induction w with
+  | nil => rfl
+  | cons a t ih =>
+    simp only [allBlank, List.all_cons, Bool.and_eq_true] at h
+    have : blankTokens (a :: (t ++ rest)) = blankTokens (t ++ rest) := by
+      simp [blankTokens, blankTokens.go, h.1]
+    rw [List.cons_append, this]
+    exact ih (by simpa [allBlank] using h.2)
+
+theorem blankTokens_allBlank (w : Bytes) (h : allBlank w = true) : blankTokens w = [] := by
+  have := blankTokens_blank_append w [] h
+  rw [List.append_nil] at this
+  rw [this]; rfl
+
+theorem startsBlankOrNil_namesText (wn : List (Bytes × Bytes)) (trail : Bytes)
+    (hwn : goodPairs wn = true) (ht : allBlank trail = true) :
+    startsBlankOrNil (namesText wn ++ trail) = true := by
+  cases wn with
+  | nil =>
+    cases trail with
+    | nil => rfl
+    | cons c r => simpa [namesText, startsBlankOrNil, allBlank] using (by simpa [allBlank] using ht : isBlank c = true ∧ _).1
+  | cons p r =>
+    obtain ⟨w, n⟩ := p
+    simp only [goodPairs, List.all_cons, Bool.and_eq_true, isBlankRun] at hwn
+    obtain ⟨⟨⟨hwne, hwb⟩, _⟩, _⟩ := hwn
+    cases w with
+    | nil => simp at hwne
+    | cons c q =>
+      simp only [allBlank, List.all_cons, Bool.and_eq_true] at hwb
+      simp [namesText, startsBlankOrNil, hwb.1]
+
+theorem blankTokens_namesText (wn : List (Bytes × Bytes)) (trail : Bytes)
+    (hwn : goodPairs wn = true) (ht : allBlank trail = true) :
+    blankTokens (namesText wn ++ trail) = wn.map (·.2) := by
+  induction wn with
+  | nil => simpa [namesText] using blankTokens_allBlank trail ht
+  | cons p r ih =>
+    obtain ⟨w, n⟩ := p
+    have hr : goodPairs r = true := by
+      simp only [goodPairs, List.all_cons, Bool.and_eq_true] at hwn
+      exact hwn.2
+    simp only [goodPairs, List.all_cons, Bool.and_eq_true, isBlankRun, isHostToken] at hwn
+    obtain ⟨⟨⟨_, hwb⟩, ⟨⟨hnne, hnb⟩, _⟩⟩, _⟩ := hwn
+    have hnne' : n ≠ [] := by
+      intro h; subst h; simp at hnne
+    simp only [namesText, List.append_assoc, List.map_cons]
+    rw [blankTokens_blank_append w _ hwb,
+        blankTokens_tok_append n _ hnne' hnb (startsBlankOrNil_namesText r trail hr ht), ih hr]
+
+theorem hashFree_append {a b : Bytes} : hashFree (a ++ b) = (hashFree a && hashFree b) := by
+  simp [hashFree]
+
+theorem hashFree_of_allBlank {w : Bytes} (h : allBlank w = true) : hashFree w = true := by
+  simp only [allBlank, List.all_eq_true] at h
+  simp only [hashFree, List.all_eq_true]
+  intro x hx
+  have := h x hx
+  simp only [isBlank, Bool.or_eq_true, beq_iff_eq] at this
+  rcases this with h | h <;> subst h <;> decide
+
+theorem hashFree_namesText (wn : List (Bytes × Bytes)) (hwn : goodPairs wn = true) :
+    hashFree (namesText wn) = true := by
+  induction wn with
+  | nil => rfl
+  | cons p r ih =>
+    obtain ⟨w, n⟩ := p
+    have hr : goodPairs r = true := by
+      simp only [goodPairs, List.all_cons, Bool.and_eq_true] at hwn
+      exact hwn.2
+    simp only [goodPairs, List.all_cons, Bool.and_eq_true, isBlankRun, isHostToken] at hwn
+    obtain ⟨⟨⟨_, hwb⟩, ⟨_, hnh⟩⟩, _⟩ := hwn
+    simp [namesText, hashFree_append, hashFree_of_allBlank hwb, hnh, ih hr]
 
 end UF
